@@ -7,13 +7,23 @@ U2: programs = every shipped (function, signature) each target accepts x debug 0
     TLC's term generators (FATerms, TypedTerms, PrinterTerms) built in the real package.
 U3: each emitted text is parsed by parsers that are independent of the package (harness/fa_printer.py),
     the real graph is projected into a node table, the text is compiled/exec'ed and run on inputs, and
-    Trace_Printer.tla judges every clause.
+    Trace_Printer.tla judges every clause (the machine of FAPrinter.tla, the C++ typing rules, and for
+    graphs over IEEE-exact kinds the bit-exact evaluation of FAPrinterEval.tla).
+The harness's own direct evaluation of the node table (Python/NumPy interpreter below, reference C++
+rendering compiled next to the emitted code) is differential execution with the same primitive
+library; it is trusted base and feeds only clause exec_equal.
 """
+import concurrent.futures as cf
+import contextlib
+import pickle
 import ctypes
+import hashlib
 import json
 import math
+import operator
 import os
 import random
+import re
 import subprocess
 import sys
 import time
@@ -23,8 +33,1403 @@ import numpy
 
 from .. import tlc, tlaval, bits
 from .. import fa_printer as P
-from ..common import Check, import_repo, REPO
+from ..common import Check, import_repo
 
 PID = "C05"
 TARGETS = ("python", "numpy", "cpp")
 LANG = dict(python="python", numpy="python", cpp="cpp")
+NWORK = max(2, min(12, (os.cpu_count() or 4) - 2))
+
+# ------------------------------------------------------------------------------------------
+# value records (uninterpreted encodings of inputs / results)
+# ------------------------------------------------------------------------------------------
+Z0 = [0, []]
+
+
+def rec(c, fmt="", b=(), im=(), z=None):
+    return dict(c=c, fmt=fmt, bits=list(b), im=list(im), z=z if z is not None else Z0)
+
+
+SKIP = rec("skip")
+CFMT = dict(complex64="float32", complex128="float64")
+
+
+def enc(v):
+    """Python / NumPy result object -> value record"""
+    if isinstance(v, numpy.ndarray):
+        if v.ndim != 0:
+            return SKIP
+        v = v[()]
+    if isinstance(v, (bool, numpy.bool_)):
+        return rec("b", z=bits.zint(int(bool(v))))
+    if isinstance(v, (int, numpy.integer)):
+        return rec("i", z=bits.zint(int(v)))
+    if isinstance(v, float):
+        return rec("f", "float64", bits.fbits(numpy.float64(v), "float64"))
+    if isinstance(v, numpy.floating):
+        name = v.dtype.name
+        if name not in bits.WIDTH:
+            return SKIP
+        return rec("f", name, bits.fbits(v, name))
+    if isinstance(v, complex):
+        return rec("z", "float64", bits.fbits(numpy.float64(v.real), "float64"), bits.fbits(numpy.float64(v.imag), "float64"))
+    if isinstance(v, numpy.complexfloating):
+        f = CFMT.get(v.dtype.name)
+        if f is None:
+            return SKIP
+        return rec("z", f, bits.fbits(v.real, f), bits.fbits(v.imag, f))
+    return SKIP
+
+
+def enc_raise(ex):
+    return rec("raise", type(ex).__name__)
+
+
+# ------------------------------------------------------------------------------------------
+# inputs
+# ------------------------------------------------------------------------------------------
+def float_pool(fmt, rng, n):
+    """n values of a binary format: special shapes first, then random finite values of all magnitudes"""
+    ft = bits.FLOAT[fmt]
+    fi = numpy.finfo(ft)
+    with numpy.errstate(all="ignore"):
+        sp = [ft(0.0), ft(1.0), ft(-1.0), ft(0.5), ft(2.0), ft(3.0), ft(-0.0), ft(1.5), ft(0.1), ft(-2.5), ft(numpy.inf), ft(-numpy.inf),
+              ft(numpy.nan), fi.smallest_subnormal, -fi.smallest_subnormal, fi.smallest_normal, fi.max, -fi.max, ft(1) + fi.eps,
+              ft(1) - fi.eps / ft(2), ft(1e-3), ft(123.456), ft(-0.75), fi.max / ft(2), fi.smallest_normal * ft(4)]
+    out = list(sp)
+    w = bits.WIDTH[fmt]
+    while len(out) < n:
+        u = rng.getrandbits(w)
+        x = bits.from_bits_int(u, fmt)
+        if rng.random() < 0.5:
+            # moderate magnitudes
+            with numpy.errstate(all="ignore"):
+                x = ft(rng.uniform(-4, 4)) * ft(2.0) ** ft(rng.randint(-6, 6))
+        out.append(x)
+    return out
+
+
+def make_inputs(params, n, rng):
+    """params: [(name, irtype)] -> list of n argument tuples (NumPy scalars / Python values), or None"""
+    cols = []
+    for name, t in params:
+        if t in ("float", "float64", "float32", "float16"):
+            fmt = "float64" if t == "float" else t
+            pool = float_pool(fmt, rng, n)
+            col = pool[:25]
+            rng.shuffle(col)
+            col += pool[25:]
+        elif t in ("complex", "complex64", "complex128"):
+            fmt = dict(complex="float64", complex128="float64", complex64="float32")[t]
+            ct = dict(float64=numpy.complex128, float32=numpy.complex64)[fmt]
+            a, b = float_pool(fmt, rng, n), float_pool(fmt, rng, n)
+            rng.shuffle(a)
+            rng.shuffle(b)
+            col = [numpy.array([x, y], dtype=bits.FLOAT[fmt]).view(ct)[0] for x, y in zip(a, b)]
+        elif t == "boolean":
+            col = [bool(rng.getrandbits(1)) for _ in range(n)]
+        elif t.startswith("integer"):
+            bw = int(t[7:] or 64)
+            sp = [0, 1, -1, 2, 3, 7, -8, 2 ** (bw - 2), -(2 ** (bw - 2))]
+            col = [sp[i] if i < len(sp) else rng.randint(-100, 100) for i in range(n)]
+            rng.shuffle(col)
+            col = [getattr(numpy, "int%d" % bw)(x) for x in col]
+        else:
+            return None
+        cols.append(col)
+    if len(cols) >= 2:
+        # make some samples hit equal / related operands
+        for i in range(0, n, 7):
+            cols[1][i] = cols[0][i] if type(cols[1][i]) is type(cols[0][i]) else cols[1][i]
+    return [tuple(c[i] for c in cols) for i in range(n)]
+
+
+def to_target_value(tname, v):
+    """inputs are generated as NumPy scalars; the Python target gets Python objects"""
+    if tname != "python":
+        return v
+    if isinstance(v, numpy.floating):
+        return float(v)
+    if isinstance(v, numpy.complexfloating):
+        return complex(v)
+    if isinstance(v, numpy.integer):
+        return int(v)
+    return v
+
+
+# ------------------------------------------------------------------------------------------
+# the harness's own table of primitives (NOT the package's): direct evaluation of a node table
+# ------------------------------------------------------------------------------------------
+def _np_where(c, a, b):
+    return numpy.where(c, a, b)
+
+
+PY_PRIM = dict(
+    absolute=abs, negative=operator.neg, positive=operator.pos, add=operator.add, subtract=operator.sub, multiply=operator.mul,
+    divide=operator.truediv, remainder=operator.mod, floor_divide=operator.floordiv, pow=operator.pow,
+    logical_and=lambda a, b: a and b, logical_or=lambda a, b: a or b, logical_not=lambda a: not a,
+    bitwise_invert=operator.invert, bitwise_and=operator.and_, bitwise_or=operator.or_, bitwise_xor=operator.xor,
+    bitwise_left_shift=operator.lshift, bitwise_right_shift=operator.rshift, maximum=max, minimum=min,
+    acos=math.acos, acosh=math.acosh, asin=math.asin, asinh=math.asinh, atan=math.atan, atanh=math.atanh, atan2=math.atan2,
+    cos=math.cos, cosh=math.cosh, sin=math.sin, sinh=math.sinh, tan=math.tan, tanh=math.tanh, exp=math.exp, expm1=math.expm1,
+    exp2=getattr(math, "exp2", None), log=math.log, log1p=math.log1p, log2=math.log2, log10=math.log10, ceil=math.ceil,
+    floor=math.floor, copysign=math.copysign, truncate=math.trunc, hypot=math.hypot, sqrt=math.sqrt,
+    conjugate=lambda z: z.conjugate(), real=lambda z: z.real, imag=lambda z: z.imag, complex=complex,
+    select=lambda c, a, b: a if c else b, lt=operator.lt, le=operator.le, gt=operator.gt, ge=operator.ge, eq=operator.eq,
+    ne=operator.ne, is_finite=math.isfinite,
+)
+PY_NAMED = dict(largest=sys.float_info.max, smallest=sys.float_info.min, eps=sys.float_info.epsilon, posinf=math.inf,
+                neginf=-math.inf, pi=math.pi, nan=math.nan)
+NP_PRIM = dict(
+    absolute=numpy.abs, negative=operator.neg, positive=operator.pos, add=operator.add, subtract=operator.sub,
+    multiply=operator.mul, divide=operator.truediv, remainder=operator.mod, floor_divide=operator.floordiv, pow=operator.pow,
+    logical_and=numpy.logical_and, logical_or=numpy.logical_or, logical_xor=numpy.logical_xor, logical_not=numpy.logical_not,
+    bitwise_invert=operator.invert, bitwise_and=operator.and_, bitwise_or=operator.or_, bitwise_xor=operator.xor,
+    bitwise_left_shift=operator.lshift, bitwise_right_shift=operator.rshift, maximum=max, minimum=min,
+    acos=numpy.arccos, acosh=numpy.arccosh, asin=numpy.arcsin, asinh=numpy.arcsinh, atan=numpy.arctan, atanh=numpy.arctanh,
+    atan2=numpy.arctan2, cos=numpy.cos, cosh=numpy.cosh, sin=numpy.sin, sinh=numpy.sinh, tan=numpy.tan, tanh=numpy.tanh,
+    exp=numpy.exp, exp2=numpy.exp2, expm1=numpy.expm1, log=numpy.log, log1p=numpy.log1p, log2=numpy.log2, log10=numpy.log10,
+    ceil=numpy.ceil, floor=numpy.floor, copysign=numpy.copysign, sign=numpy.sign, truncate=numpy.trunc, hypot=numpy.hypot,
+    square=numpy.square, sqrt=numpy.sqrt, conjugate=lambda z: z.conjugate(), real=lambda z: z.real, imag=lambda z: z.imag,
+    select=_np_where, lt=numpy.less, le=numpy.less_equal, gt=numpy.greater, ge=numpy.greater_equal, eq=numpy.equal,
+    ne=numpy.not_equal, nextafter=numpy.nextafter, is_finite=numpy.isfinite,
+)
+NP_TYPE = dict(float16=numpy.float16, float32=numpy.float32, float64=numpy.float64, float=numpy.float64,
+               complex64=numpy.complex64, complex128=numpy.complex128, complex=numpy.complex128, integer8=numpy.int8,
+               integer16=numpy.int16, integer32=numpy.int32, integer64=numpy.int64, integer=numpy.int64, boolean=numpy.bool_)
+WIDER = dict(float16="float32", float32="float64", complex64="complex128", integer8="integer16", integer16="integer32", integer32="integer64")
+NARROWER = {v: k for k, v in WIDER.items()}
+
+
+def _np_complex(r, i):
+    # the IR's `complex` of two floats of one format: the complex number with these parts
+    if r.dtype == numpy.float32 and i.dtype == numpy.float32:
+        return numpy.array([r, i], dtype=numpy.float32).view(numpy.complex64)[0]
+    if r.dtype == numpy.float64 and i.dtype == numpy.float64:
+        return numpy.array([r, i], dtype=numpy.float64).view(numpy.complex128)[0]
+    raise NotImplementedError("complex of mixed parts")
+
+
+def _np_named(name, t):
+    ty = NP_TYPE[t]
+    fi = numpy.finfo(ty)
+    return dict(largest=lambda: fi.max, smallest=lambda: fi.smallest_normal, eps=lambda: fi.eps,
+                smallest_subnormal=lambda: fi.smallest_subnormal, posinf=lambda: ty(numpy.inf), neginf=lambda: -ty(numpy.inf),
+                pi=lambda: ty(numpy.pi), nan=lambda: ty(numpy.nan))[name]()
+
+
+class NotEvaluable(Exception):
+    pass
+
+
+def wild_lambda(template):
+    """a wild-carded kind is accepted as emitted: its primitive is the package's template itself"""
+    if not isinstance(template, str):
+        raise NotEvaluable("wild template")
+    src = "lambda a0=None, a1=None, a2=None: " + template.format("a0", "a1", "a2")
+    return eval(src, dict(math=math, numpy=numpy, sys=sys))
+
+
+def direct_eval(tname, nodes, exprs, root, args, wild_templates):
+    """strict evaluation of every node once, operands first, with the target's primitive library"""
+    vals = [None] * (len(nodes) + 1)
+    prim = PY_PRIM if tname == "python" else NP_PRIM
+    for m, n in enumerate(nodes, 1):
+        k = n["k"]
+        if k == "symbol":
+            if n["n"] not in args:
+                raise NotEvaluable("free symbol " + n["n"])
+            v = args[n["n"]]
+        elif k == "constant":
+            raw = exprs[m - 1].operands[0]
+            if isinstance(raw, str):
+                if tname == "python":
+                    if raw not in PY_NAMED:
+                        raise NotEvaluable("named constant " + raw)
+                    v = PY_NAMED[raw]
+                else:
+                    v = _np_named(raw, n["t"])
+            elif tname == "python":
+                # the Python target has one float type: a NumPy scalar constant denotes the Python number of the same value
+                v = (float(raw) if isinstance(raw, numpy.floating) else int(raw) if isinstance(raw, numpy.integer)
+                     else complex(raw) if isinstance(raw, numpy.complexfloating) else bool(raw) if isinstance(raw, numpy.bool_) else raw)
+            else:
+                if n["t"] not in NP_TYPE:
+                    raise NotEvaluable("type " + n["t"])
+                v = NP_TYPE[n["t"]](raw)
+        else:
+            ops = [vals[j] for j in n["a"]]
+            if k in ("upcast", "downcast") and tname == "numpy":
+                src = nodes[n["a"][0] - 1]["t"]
+                dst = (WIDER if k == "upcast" else NARROWER).get(src)
+                if dst is None:
+                    raise NotEvaluable("cast of " + src)
+                v = NP_TYPE[dst](ops[0])
+            elif k == "complex" and tname == "numpy":
+                v = _np_complex(*ops)
+            elif k in wild_templates:
+                v = wild_lambda(wild_templates[k])(*ops)
+            else:
+                f = prim.get(k)
+                if f is None:
+                    raise NotEvaluable("kind " + k)
+                v = f(*ops)
+        vals[m] = v
+    return vals[root]
+
+
+# ------------------------------------------------------------------------------------------
+# reference C++ rendering of a node table (one typed statement per node, the harness's own table)
+# ------------------------------------------------------------------------------------------
+CPP_T = dict(float32="float", float64="double", float="double", complex64="std::complex<float>", complex128="std::complex<double>",
+             complex="std::complex<double>", boolean="bool", integer8="int8_t", integer16="int16_t", integer32="int32_t",
+             integer64="int64_t", integer="int64_t")
+CPP_MATH1 = {"acos", "acosh", "asin", "asinh", "atan", "atanh", "cos", "cosh", "sin", "sinh", "tan", "tanh", "exp", "exp2", "expm1",
+             "log", "log1p", "log2", "log10", "ceil", "floor", "sqrt"}
+CPP_MATH2 = {"atan2", "copysign", "hypot", "nextafter", "pow"}
+CPP_BIN = dict(add="+", subtract="-", multiply="*", divide="/", bitwise_and="&", bitwise_or="|", bitwise_xor="^",
+               bitwise_left_shift="<<", bitwise_right_shift=">>")
+CPP_REL = dict(lt="<", le="<=", gt=">", ge=">=", eq="==", ne="!=")
+NPDT = dict(float="float64", float64="float64", float32="float32", complex="complex128", complex128="complex128", complex64="complex64",
+            boolean="uint8", integer="int64", integer64="int64", integer32="int32", integer16="int16", integer8="int8")
+
+
+def _is_cx(t):
+    return t.startswith("complex")
+
+
+def _is_fl(t):
+    return t.startswith("float")
+
+
+def cpp_const(raw, t):
+    T = CPP_T[t]
+    if isinstance(raw, str):
+        e = dict(largest="std::numeric_limits<%s>::max()", smallest="std::numeric_limits<%s>::min()",
+                 eps="std::numeric_limits<%s>::epsilon()", smallest_subnormal="std::numeric_limits<%s>::denorm_min()",
+                 posinf="std::numeric_limits<%s>::infinity()", neginf="-std::numeric_limits<%s>::infinity()",
+                 nan="std::numeric_limits<%s>::quiet_NaN()").get(raw)
+        if e is not None and _is_fl(t):
+            return e % T
+        if raw == "pi" and _is_fl(t):
+            raw = math.pi
+        else:
+            raise NotEvaluable("named constant " + str(raw))
+    if _is_fl(t):
+        if isinstance(raw, (complex, numpy.complexfloating)):
+            raise NotEvaluable("complex value for float node")
+        fmt = "float64" if t == "float" else t
+        with numpy.errstate(all="ignore"):
+            x = bits.FLOAT[fmt](raw)
+        u = bits.fbits_int(x, fmt)
+        return ("fa_f32(0x%xu)" if fmt == "float32" else "fa_f64(0x%xull)") % u
+    if _is_cx(t):
+        pf = "float32" if t == "complex64" else "float64"
+        z = complex(raw)
+        with numpy.errstate(all="ignore"):
+            re_, im_ = bits.FLOAT[pf](z.real), bits.FLOAT[pf](z.imag)
+        mk = "fa_f32(0x%xu)" if pf == "float32" else "fa_f64(0x%xull)"
+        return "%s(%s, %s)" % (T, mk % bits.fbits_int(re_, pf), mk % bits.fbits_int(im_, pf))
+    if t == "boolean":
+        return "true" if raw else "false"
+    if t.startswith("integer"):
+        return "(%s)%dLL" % (T, int(raw))
+    raise NotEvaluable("constant of type " + t)
+
+
+def cpp_reference(nodes, exprs, root, params, wild_templates, name):
+    """C++ text of `RET name(params)`: every node once, in its static type"""
+    lines = []
+    tys = [None] + [n["t"] for n in nodes]
+
+    def cast(j, t):
+        """operand j converted to IR type t (only between types of one class)"""
+        s = tys[j]
+        if s == t or t not in CPP_T:
+            return "n%d" % j
+        if (_is_fl(s) or s.startswith("integer") or s == "boolean") and _is_fl(t):
+            return "(%s)n%d" % (CPP_T[t], j)
+        if _is_cx(s) and _is_cx(t):
+            return "(%s)n%d" % (CPP_T[t], j)
+        if _is_fl(s) and _is_cx(t):
+            return "(%s)n%d" % (CPP_T["float32" if t == "complex64" else "float64"], j)
+        if s.startswith("integer") and t.startswith("integer"):
+            return "(%s)n%d" % (CPP_T[t], j)
+        return "n%d" % j
+
+    for m, n in enumerate(nodes, 1):
+        k, t, a = n["k"], n["t"], n["a"]
+        if t not in CPP_T:
+            raise NotEvaluable("type " + t)
+        T = CPP_T[t]
+        if k == "symbol":
+            if n["n"] not in [p[0] for p in params]:
+                raise NotEvaluable("free symbol")
+            e = n["n"]
+        elif k == "constant":
+            e = cpp_const(exprs[m - 1].operands[0], t)
+        elif k in wild_templates and isinstance(wild_templates[k], str):
+            e = wild_templates[k].format(*["n%d" % j for j in a], typeof_0=CPP_T.get(tys[a[-1]], "double"))
+        elif k in CPP_BIN:
+            e = "%s %s %s" % (cast(a[0], t), CPP_BIN[k], cast(a[1], t))
+        elif k in CPP_REL:
+            ts = [tys[j] for j in a]
+            com = max(ts, key=lambda s: (_is_cx(s), _is_fl(s), int(re.sub(r"\D", "", s) or 64)))
+            e = "%s %s %s" % (cast(a[0], com), CPP_REL[k], cast(a[1], com))
+        elif k in CPP_MATH1:
+            e = "std::%s(%s)" % (k, cast(a[0], t))
+        elif k in CPP_MATH2:
+            e = "std::%s(%s, %s)" % (k, cast(a[0], t), cast(a[1], t))
+        elif k == "maximum":
+            e = "std::max(%s, %s)" % (cast(a[0], t), cast(a[1], t))
+        elif k == "minimum":
+            e = "std::min(%s, %s)" % (cast(a[0], t), cast(a[1], t))
+        elif k == "absolute":
+            e = "std::abs(n%d)" % a[0]
+        elif k == "negative":
+            e = "-n%d" % a[0]
+        elif k == "positive":
+            e = "+n%d" % a[0]
+        elif k == "square":
+            e = "n%d * n%d" % (a[0], a[0])
+        elif k == "truncate":
+            e = "std::trunc(n%d)" % a[0]
+        elif k == "is_finite":
+            e = "std::isfinite(n%d)" % a[0]
+        elif k == "logical_and":
+            e = "n%d && n%d" % tuple(a)
+        elif k == "logical_or":
+            e = "n%d || n%d" % tuple(a)
+        elif k == "logical_xor":
+            e = "n%d != n%d" % tuple(a)
+        elif k == "logical_not":
+            e = "!n%d" % a[0]
+        elif k == "bitwise_invert":
+            e = "~n%d" % a[0]
+        elif k == "real":
+            e = "std::real(n%d)" % a[0]
+        elif k == "imag":
+            e = "std::imag(n%d)" % a[0]
+        elif k == "conjugate":
+            e = "std::conj(n%d)" % a[0]
+        elif k == "complex":
+            pt = "float32" if t == "complex64" else "float64"
+            e = "%s(%s, %s)" % (T, cast(a[0], pt), cast(a[1], pt))
+        elif k == "select":
+            e = "n%d ? %s : %s" % (a[0], cast(a[1], t), cast(a[2], t))
+        elif k in ("upcast", "downcast"):
+            e = "(%s)n%d" % (T, a[0])
+        else:
+            raise NotEvaluable("kind " + k)
+        if k == "symbol":
+            lines.append("  const %s n%d = %s;" % (T, m, e))
+        else:
+            lines.append("  const %s n%d = %s;" % (T, m, e))
+    sig = ", ".join("%s %s" % (CPP_T[t], nm) for nm, t in params)
+    return "%s %s(%s) {\n%s\n  return n%d;\n}\n" % (CPP_T[tys[root]], name, sig, "\n".join(lines), root)
+
+
+CPP_PRELUDE = """
+#include <cstring>
+#include <cstdint>
+static inline float fa_f32(uint32_t u) { float f; std::memcpy(&f, &u, 4); return f; }
+static inline double fa_f64(uint64_t u) { double f; std::memcpy(&f, &u, 8); return f; }
+"""
+
+
+class CppBatch:
+    """programs of one translation unit / shared object"""
+
+    def __init__(self, header, tag):
+        self.header = header
+        self.tag = tag
+        self.items = []   # dict(key, emitted, ref, fname, params[(name, irtype)], ret irtype)
+
+    def source(self, skip_emitted=(), skip_ref=()):
+        parts = [self.header, CPP_PRELUDE]
+        spans = []   # (first line, last line, key, 'e'/'r'/'w')
+
+        def add(text, key, what):
+            start = sum(p.count("\n") for p in parts) + 1
+            parts.append(text if text.endswith("\n") else text + "\n")
+            spans.append((start, start + parts[-1].count("\n") - 1, key, what))
+
+        for it in self.items:
+            k = it["key"]
+            if k in skip_emitted:
+                continue
+            add("namespace p%d {\n%s\n}\n" % (k, it["emitted"]), k, "e")
+            has_ref = it["ref"] is not None and k not in skip_ref
+            if has_ref:
+                add("namespace r%d {\n%s\n}\n" % (k, it["ref"]), k, "r")
+            T = [CPP_T[t] for _, t in it["params"]]
+            R = CPP_T[it["ret"]]
+            decl = "".join("  const %s* a%d = (const %s*)in[%d];\n" % (T[i], i, T[i], i) for i in range(len(T)))
+            call = ", ".join("a%d[i]" % i for i in range(len(T)))
+            body = "    ((%s*)out)[i] = p%d::%s(%s);\n" % (R, k, it["fname"], call)
+            if has_ref:
+                body += "    ((%s*)ref)[i] = r%d::ref(%s);\n" % (R, k, call)
+            add('extern "C" void run_p%d(void** in, void* out, void* ref, int n) {\n%s  for (int i = 0; i < n; i++) {\n%s  }\n}\n'
+                % (k, decl, body), k, "w")
+        return "".join(parts), spans
+
+    def build(self, wd):
+        """-> (so path or None, failed_emitted {key: message}, failed_ref set)"""
+        bad_e, bad_r = {}, set()
+        for attempt in range(4):
+            src, spans = self.source(bad_e, bad_r)
+            cpp = os.path.join(wd, "batch_%s_%d.cpp" % (self.tag, attempt))
+            so = cpp[:-4] + ".so"
+            with open(cpp, "w") as f:
+                f.write(src)
+            r = subprocess.run(["g++", "-std=c++17", "-O0", "-fno-fast-math", "-ffp-contract=off", "-frounding-math", "-shared", "-fPIC", "-w",
+                                "-fmax-errors=0", "-o", so, cpp], capture_output=True, text=True)
+            if r.returncode == 0:
+                return so, bad_e, bad_r
+            new = False
+            for m in re.finditer(r"^%s:(\d+):\d+: (?:fatal )?error: (.*)$" % re.escape(cpp), r.stderr, re.M):
+                ln = int(m.group(1))
+                for a, b, key, what in spans:
+                    if a <= ln <= b:
+                        if what == "r":
+                            if key not in bad_r:
+                                bad_r.add(key)
+                                new = True
+                        elif what == "e" or (what == "w" and key not in bad_r):
+                            if key not in bad_e:
+                                bad_e[key] = m.group(2)[:200]
+                                new = True
+                        break
+            if not new:
+                raise tlc.MachineryError("g++ failed on a batch and the errors cannot be attributed:\n" + r.stderr[-2000:])
+        raise tlc.MachineryError("g++ batch did not converge")
+
+
+def run_cpp_protected(so, items, inputs_of):
+    """run the programs of one shared object in a forked child (compiled code may trap, e.g. an integer
+    division by zero); -> {key: (outs, refs) | 'signal N'}"""
+    def child(keys):
+        rfd, wfd = os.pipe()
+        pid = os.fork()
+        if pid == 0:
+            os.close(rfd)
+            out = {}
+            try:
+                with os.fdopen(wfd, "wb") as f:
+                    for it in keys:
+                        out = {it["key"]: run_cpp(so, it, inputs_of[it["key"]])}
+                        pickle.dump(out, f)
+                        f.flush()
+            finally:
+                os._exit(0)
+        os.close(wfd)
+        got = {}
+        with os.fdopen(rfd, "rb") as f:
+            while True:
+                try:
+                    got.update(pickle.load(f))
+                except EOFError:
+                    break
+                except Exception:  # truncated record
+                    break
+        _, status = os.waitpid(pid, 0)
+        return got, status
+    todo = list(items)
+    res = {}
+    while todo:
+        got, status = child(todo)
+        res.update(got)
+        todo = [it for it in todo if it["key"] not in got]
+        if todo and os.WIFSIGNALED(status):
+            res[todo[0]["key"]] = "signal %d" % os.WTERMSIG(status)
+            todo = todo[1:]
+        elif todo:
+            raise tlc.MachineryError("C++ execution child ended without results (status %s)" % status)
+    return res
+
+
+def run_cpp(so, it, inputs):
+    """-> (outs, refs) lists of value records"""
+    lib = ctypes.CDLL(so)
+    fn = getattr(lib, "run_p%d" % it["key"])
+    n = len(inputs)
+    arrs = []
+    for i, (nm, t) in enumerate(it["params"]):
+        arrs.append(numpy.ascontiguousarray(numpy.array([x[i] for x in inputs], dtype=NPDT[t])))
+    ptrs = (ctypes.c_void_p * len(arrs))(*[a.ctypes.data for a in arrs])
+    rdt = NPDT[it["ret"]]
+    out = numpy.zeros(n, dtype=rdt)
+    ref = numpy.zeros(n, dtype=rdt)
+    fn(ptrs, ctypes.c_void_p(out.ctypes.data), ctypes.c_void_p(ref.ctypes.data), ctypes.c_int(n))
+
+    def conv(a):
+        if it["ret"] == "boolean":
+            return [rec("b", z=bits.zint(int(x != 0))) for x in a]
+        return [enc(x) for x in a]
+    return conv(out), (conv(ref) if it["has_ref"] else [SKIP] * n)
+
+
+# ------------------------------------------------------------------------------------------
+# graphs: shipped algorithms and TLC-generated terms
+# ------------------------------------------------------------------------------------------
+def shipped_requests(fa):
+    out = []
+    for tname in TARGETS:
+        target = getattr(fa.targets, tname)
+        for func, sigs in target.trace_arguments.items():
+            for sig in sigs:
+                out.append(dict(src="shipped", target=tname, func=func, sig=list(sig)))
+    return out
+
+
+NUM_VALUES = {
+    "0": 0.0, "1": 1.0, "-1": -1.0, "2": 2.0, "3": 3.0, "4": 4.0, "0.5": 0.5, "1/2": 0.5, "0.1": 0.1, "0.2": 0.2, "-0.0": -0.0, "1.5": 1.5,
+    "0.25": 0.25, "1e-300": 1e-300, "1e300": 1e300, "1e-40": 1e-40, "1e30": 1e30, "3.4028235e38": 3.4028235e38, "16777217": 16777217.0,
+    "inf": math.inf, "-inf": -math.inf, "nan": math.nan, "int:0": 0, "int:1": 1, "int:2": 2, "int:3": 3, "int:-2": -2,
+    "int:big": 2 ** 62 + 1, "sqrt2_32": numpy.float32(2) ** numpy.float32(0.5), "third_32": numpy.float32(1) / numpy.float32(3),
+    "third_64": 1.0 / 3.0, "pi_64": math.pi, "cplx": 1.5 - 2j, "true": True, "false": False,
+}
+FATERMS_NUMS = {"0": 0, "1": 1, "-1": -1, "2": 2, "3": 3, "4": 4}   # FATerms' small literals are Python ints (as in C04)
+
+
+class BuildSkip(Exception):
+    pass
+
+
+def class_dtype(tname, cls, variant):
+    """dtype (IR annotation string) of a symbol class for a target / variant (0: wide, 1: narrow, 2: half)"""
+    if tname == "python":
+        return dict(F="float", C="complex", I="int", B="bool")[cls]
+    if cls == "F":
+        return ["float64", "float32", "float16" if tname == "numpy" else "float32"][variant % 3]
+    if cls == "C":
+        return ["complex128", "complex64", "complex64"][variant % 3]
+    if cls == "I":
+        return ["int64", "int32", "int64"][variant % 3]
+    return "bool"
+
+
+def typed_dtype(tname, ty):
+    """TypedTerms type <<kind, bits>> -> annotation string"""
+    kind, b = ty
+    if tname == "python":
+        return dict(float="float", complex="complex", integer="int", boolean="bool")[kind]
+    if kind == "boolean":
+        return "bool"
+    if kind == "integer":
+        return "int%d" % (b or 64)
+    return "%s%d" % (kind, b) if b else kind
+
+
+def collect_symbols(term, tname, variant, out):
+    if not isinstance(term, list):
+        return
+    if term[0] in ("num", "named") and len(term) == 2:
+        # FATerms constants are `like x` (as in C04): x is always a float parameter
+        out.setdefault("x", class_dtype(tname, "F", variant))
+        return
+    if term[0] == "sym":
+        if len(term) == 2:      # FATerms
+            nm = term[1]
+            ty = "bool" if nm in ("b", "c") else class_dtype(tname, "F", variant)
+        elif isinstance(term[2], list):   # TypedTerms
+            nm, ty = term[1], typed_dtype(tname, term[2])
+        else:
+            nm, ty = term[1], class_dtype(tname, term[2], variant)
+        if out.setdefault(nm, ty) != ty:
+            raise BuildSkip("symbol %s with two types" % nm)
+        return
+    for t in term[1:]:
+        collect_symbols(t, tname, variant, out)
+
+
+def build_expr(ctx, term, syms, tname):
+    k = term[0]
+    if k == "sym":
+        return syms[term[1]]
+    if k == "num":
+        if len(term) == 2:   # FATerms: like x
+            v = FATERMS_NUMS.get(term[1], NUM_VALUES.get(term[1]))
+            return ctx.constant(v, syms["x"])
+        return ctx.constant(NUM_VALUES[term[1]], build_expr(ctx, term[2], syms, tname))
+    if k == "named":
+        like = build_expr(ctx, term[2], syms, tname) if len(term) == 3 else syms["x"]
+        return ctx.constant(term[1], like)
+    if k == "bool":
+        return ctx.constant(bool(term[1]))
+    if k == "const":     # TypedTerms
+        return ctx.constant(NUM_VALUES.get(term[1], term[1]) if term[1] in NUM_VALUES else term[1], build_expr(ctx, term[2], syms, tname))
+    if k == "constT":
+        v = NUM_VALUES.get(term[1], term[1])
+        return ctx.constant(v, typed_dtype(tname, term[2]))
+    if k == "const0":
+        return ctx.constant(NUM_VALUES[term[1]])
+    if k == "ref":
+        e = build_expr(ctx, term[3], syms, tname)
+        if term[3][0] == "sym":
+            return e      # renaming an argument is not a naming policy of an expression: not generated
+        return e.reference(ref_name=term[1], force=bool(term[2]))
+    ops = [build_expr(ctx, t, syms, tname) for t in term[1:]]
+    f = getattr(ctx, k, None)
+    if f is None:
+        raise BuildSkip("Context has no method " + k)
+    return f(*ops)
+
+
+def build_term_graph(fa, term, tname, variant):
+    syms_t = {}
+    collect_symbols(term, tname, variant, syms_t)
+    names = sorted(syms_t)
+    if not names:
+        raise BuildSkip("closed term")
+    holder = {}
+
+    def _build(ctx, d):
+        return build_expr(ctx, term, d, tname)
+
+    src = "def fn(ctx, %s):\n    return _build(ctx, dict(%s))\n" % (", ".join(names), ", ".join("%s=%s" % (n, n) for n in names))
+    ns = dict(_build=_build)
+    exec(src, ns)
+    ctx = fa.Context(paths=[fa.algorithms])
+    return ctx.trace(ns["fn"], *["%s:%s" % (n, syms_t[n]) for n in names])
+
+
+def make_graph(fa, req):
+    """-> graph after the target's expansion pass, or raises"""
+    target = getattr(fa.targets, req["target"])
+    if req["src"] == "shipped":
+        ctx = fa.Context(paths=[fa.algorithms])
+        g = ctx.trace(getattr(fa.algorithms, req["func"]), *req["sig"])
+    else:
+        g = build_term_graph(fa, req["term"], req["target"], req.get("variant", 0))
+    if req.get("simplify", True):
+        return g.rewrite(target, fa.rewrite)
+    return g.rewrite(target)
+
+
+# ------------------------------------------------------------------------------------------
+# one program: emit, parse, project, execute (Python / NumPy), stage (C++)
+# ------------------------------------------------------------------------------------------
+def ir_params(proj):
+    return [(p["name"], p["t"]) for p in proj["params"]]
+
+
+def produce(fa, req, nsamples, nieee, seed):
+    """Everything for one request that can be done in a worker process.
+    -> dict(status, ...) ; status in accepted / declined / build_skip"""
+    tname = req["target"]
+    target = getattr(fa.targets, tname)
+    res = dict(req=req, status="accepted")
+    try:
+        with warnings.catch_warnings(), open(os.devnull, "w") as devnull, contextlib.redirect_stdout(devnull):
+            warnings.simplefilter("ignore")
+            g = make_graph(fa, req)
+    except BuildSkip as ex:
+        return dict(req=req, status="build_skip", why=str(ex)[:100])
+    except Exception as ex:  # building the graph is not this property
+        return dict(req=req, status="build_skip", why="%s: %s" % (type(ex).__name__, str(ex)[:100]))
+    try:
+        with warnings.catch_warnings(), open(os.devnull, "w") as devnull, contextlib.redirect_stdout(devnull):
+            warnings.simplefilter("ignore")
+            text = g.tostring(target, debug=req.get("debug", 0))
+    except Exception as ex:
+        if type(ex).__name__ == "InvalidInput":
+            # the package's own formatter (black) rejects the text the printer produced: the emitted source does not load
+            proj, _ = P.project(g)
+            return dict(req=req, status="accepted", text="", proj=proj, prog=dict(params=[], stmts=[], rows=[], ret=""), fname="", wild={},
+                        loads=False, load_error="formatter rejects the emitted text: " + str(ex).replace("\n", " ")[:160], samples=[], inputs_ok=False)
+        # the target does not accept the graph
+        return dict(req=req, status="declined", why="%s: %s" % (type(ex).__name__, str(ex)[:120]))
+    proj, exprs = P.project(g)
+    res.update(text=text, proj=proj)
+    if any(p["t"] == "list" for p in proj["params"]) or any(n["k"] in ("list", "item") or n["t"].startswith("list") for n in proj["nodes"]):
+        return dict(req=req, status="build_skip", why="list-valued program")
+    tabs = wild_tables(fa)[tname]
+    res["wild"] = {k: v for k, v in tabs["patterns"].items() if v["o"] not in ("none", "callable", "unparsable")}
+    wild_templates = {k: tabs["templates"][k] for k in tabs["wildkinds"] if k in tabs["templates"]}
+    # parse with the independent parser
+    try:
+        prog = P.parse_cpp(text) if tname == "cpp" else P.parse_python(text)
+    except P.ParseError as ex:
+        if tname != "cpp":
+            # text that Python's own parser accepted but the term builder does not know: machinery
+            raise
+        # C++ text the subset parser cannot read: decided by the compiler below (does not compile -> `loads`)
+        res.update(parse_failed=str(ex)[:300], prog=dict(params=[], stmts=[], rows=[], ret=""), fname="", loads=True, load_error="",
+                   samples=None, inputs_ok=False)
+        return res
+    res["prog"] = dict(params=prog["params"], stmts=prog["stmts"], rows=prog["rows"], ret=prog["ret"])
+    res["fname"] = prog["fname"]
+    res["loads"] = prog["loads"]
+    res["load_error"] = prog["error"]
+    params = ir_params(proj)
+    rng = random.Random("%s/%s" % (seed, json.dumps(req, sort_keys=True, default=str)))
+    inputs = make_inputs(params, nsamples, rng)
+    res["inputs_ok"] = inputs is not None
+    if inputs is None or not prog["loads"]:
+        res["samples"] = []
+        return res
+    if [p["name"] for p in prog["params"]] != [p[0] for p in params]:
+        # the text's parameter list is not the graph's argument list: reported as such, nothing else is judged
+        res["samples"] = []
+        res["param_mismatch"] = True
+        res["status"] = "param_mismatch"
+        return res
+    res["inputs"] = inputs
+    if tname == "cpp":
+        try:
+            res["ref_cpp"] = cpp_reference(proj["nodes"], exprs, proj["root"], params, wild_templates, "ref")
+        except NotEvaluable as ex:
+            res["ref_cpp"] = None
+            res["ref_why"] = str(ex)
+        except Exception as ex:  # noqa
+            res["ref_cpp"] = None
+            res["ref_why"] = "%s: %s" % (type(ex).__name__, ex)
+        res["ret"] = proj["nodes"][proj["root"] - 1]["t"]
+        if any(t not in CPP_T for _, t in params) or res["ret"] not in CPP_T:
+            res["inputs_ok"] = False
+        res["samples"] = None   # filled after the batch is compiled
+        return res
+    # Python / NumPy: load and run here
+    ns = {}
+    try:
+        with warnings.catch_warnings():
+            warnings.simplefilter("ignore")
+            exec(target.source_file_header, ns)
+            exec(text, ns)
+        f = ns[prog["fname"]]
+    except Exception as ex:  # noqa
+        res["loads"] = False
+        res["load_error"] = "%s: %s" % (type(ex).__name__, str(ex)[:200])
+        res["samples"] = []
+        return res
+    samples = []
+    names = [p[0] for p in params]
+    for i, args in enumerate(inputs):
+        targs = [to_target_value(tname, a) for a in args]
+        with warnings.catch_warnings():
+            warnings.simplefilter("ignore")
+            with numpy.errstate(all="ignore"):
+                try:
+                    out = enc(f(*targs))
+                except Exception as ex:  # noqa
+                    out = enc_raise(ex)
+                try:
+                    ref = enc(direct_eval(tname, proj["nodes"], exprs, proj["root"], dict(zip(names, targs)), wild_templates))
+                except NotEvaluable:
+                    ref = SKIP
+                except Exception as ex:  # noqa
+                    ref = enc_raise(ex)
+        samples.append(dict(out=out, ref=ref, ieee=i < nieee, **({"in": {n: enc(a) for n, a in zip(names, targs)}} if i < nieee else {"in": {}})))
+    res["samples"] = samples
+    return res
+
+
+_WILD = {}
+SPEC_WILD = dict(python={"sign", "round", "list", "item"}, numpy={"round", "list", "item"}, cpp={"sign", "round", "remainder", "list", "item"})
+
+
+def wild_tables(fa):
+    """per target: parsed patterns of the package's templates and the raw templates of wild-carded kinds"""
+    if not _WILD:
+        for tname in TARGETS:
+            target = getattr(fa.targets, tname)
+            tabs = P.extract_tables(target, LANG[tname])
+            _WILD[tname] = dict(patterns={k: v for k, v in tabs["kinds"].items() if k in SPEC_WILD[tname]},
+                                templates=dict(getattr(target, "kind_to_target", {})), wildkinds=SPEC_WILD[tname], tables=tabs)
+    return _WILD
+
+
+# ------------------------------------------------------------------------------------------
+# worker pool (fork): produce() for many requests
+# ------------------------------------------------------------------------------------------
+_FA = None
+
+
+def warm_up_numpy():
+    """NumPy takes a different code path the first time a ufunc sees a scalar dtype in a process (observed:
+    numpy.square(complex128 scalar) returns (-inf+infj) on the first call and (nan+infj) afterwards for an
+    overflowing argument).  Call every primitive once per dtype so that emitted code and direct evaluation
+    both run on the steady-state path."""
+    vals = [numpy.float16(1.5), numpy.float32(1.5), numpy.float64(1.5), numpy.complex64(1.5 + 0.5j), numpy.complex128(1.5 + 0.5j),
+            numpy.int32(3), numpy.int64(3), numpy.bool_(True)]
+    with warnings.catch_warnings():
+        warnings.simplefilter("ignore")
+        with numpy.errstate(all="ignore"):
+            for f in set(NP_PRIM.values()):
+                if isinstance(f, numpy.ufunc):
+                    for v in vals:
+                        for _ in range(2):
+                            try:
+                                f(*([v] * f.nin))
+                            except Exception:  # noqa
+                                pass
+
+
+def _worker(args):
+    reqs, nsamples, nieee, seed = args
+    warm_up_numpy()
+    out = []
+    for r in reqs:
+        try:
+            out.append(produce(_FA, r, nsamples, nieee, seed))
+        except P.ParseError as ex:
+            out.append(dict(req=r, status="parse_error", why=str(ex)[:300]))
+    return out
+
+
+def produce_all(fa, reqs, nsamples, nieee, seed):
+    global _FA
+    _FA = fa
+    wild_tables(fa)
+    import multiprocessing as mp
+    chunks = [reqs[i::NWORK * 4] for i in range(NWORK * 4)]
+    chunks = [c for c in chunks if c]
+    ctx = mp.get_context("fork")
+    with ctx.Pool(NWORK) as pool:
+        parts = pool.map(_worker, [(c, nsamples, nieee, seed) for c in chunks])
+    res = [r for p in parts for r in p]
+    order = {json.dumps(r, sort_keys=True, default=str): i for i, r in enumerate(reqs)}
+    res.sort(key=lambda r: order[json.dumps(r["req"], sort_keys=True, default=str)])
+    return res
+
+
+def run_cpp_programs(fa, results, nieee):
+    """compile all accepted C++ programs in batches, execute, fill samples"""
+    cpps = [r for r in results if r["status"] == "accepted" and r["req"]["target"] == "cpp" and r.get("samples") is None]
+    if not cpps:
+        return
+    header = fa.targets.cpp.source_file_header
+    wd = tlc.workdir()
+    nb = max(1, min(NWORK * 2, (len(cpps) + 59) // 60))
+    batches = [CppBatch(header, "%d_%d" % (os.getpid(), b)) for b in range(nb)]
+    for i, r in enumerate(cpps):
+        r["key"] = i
+        if not r["inputs_ok"]:
+            # cannot be marshalled (e.g. an unsupported parameter type): compile-only, via a dummy entry
+            pass
+        batches[i % nb].items.append(dict(key=i, emitted=r["text"], ref=r.get("ref_cpp"), fname=r["fname"],
+                                          params=ir_params(r["proj"]) if r["inputs_ok"] else [], ret=r.get("ret", "float64")
+                                          if r["inputs_ok"] else "float64", runnable=r["inputs_ok"]))
+    # programs that cannot be marshalled are compiled without wrapper: treat by giving them no params is wrong;
+    # keep it simple: they are syntax-checked separately
+    for b in batches:
+        b.items = [it for it in b.items if it["runnable"]]
+    with cf.ThreadPoolExecutor(max_workers=NWORK) as ex:
+        built = list(ex.map(lambda b: b.build(wd) if b.items else (None, {}, set()), batches))
+    bykey = {r["key"]: r for r in cpps}
+    for b, (so, bad_e, bad_r) in zip(batches, built):
+        runnable = []
+        for it in b.items:
+            r = bykey[it["key"]]
+            if it["key"] in bad_e:
+                r["loads"] = False
+                r["load_error"] = bad_e[it["key"]]
+                r["samples"] = []
+                continue
+            it["has_ref"] = it["ref"] is not None and it["key"] not in bad_r
+            if it["ref"] is not None and it["key"] in bad_r:
+                r["ref_why"] = "reference rendering does not compile"
+            runnable.append(it)
+        got = run_cpp_protected(so, runnable, {it["key"]: bykey[it["key"]]["inputs"] for it in runnable}) if runnable else {}
+        for it in runnable:
+            r = bykey[it["key"]]
+            if isinstance(got[it["key"]], str):
+                # the compiled code trapped (both the emitted function and the reference live in the child): not judged
+                r["trapped"] = got[it["key"]]
+                r["samples"] = []
+                continue
+            outs, refs = got[it["key"]]
+            names = [p[0] for p in it["params"]]
+            r["samples"] = [dict(out=o, ref=f, ieee=i < nieee, **{"in": ({n: enc(a) for n, a in zip(names, r["inputs"][i])} if i < nieee else {})})
+                            for i, (o, f) in enumerate(zip(outs, refs))]
+    for r in cpps:
+        if r.get("samples") is None:
+            # not runnable (or not parsable by the subset parser): syntax check only
+            src = header + CPP_PRELUDE + r["text"]
+            p = os.path.join(wd, "single_%d.cpp" % r["key"])
+            with open(p, "w") as f:
+                f.write(src)
+            q = subprocess.run(["g++", "-std=c++17", "-fsyntax-only", "-w", p], capture_output=True, text=True)
+            r["loads"] = q.returncode == 0
+            m = re.search(r"error: (.*)", q.stderr)
+            r["load_error"] = (m.group(1)[:200] if m else q.stderr[-300:]) if q.returncode else ""
+            r["samples"] = []
+            if r.get("parse_failed") and r["loads"]:
+                r["status"] = "parse_error"
+                r["why"] = r["parse_failed"]
+
+
+# ------------------------------------------------------------------------------------------
+# U1: model checks
+# ------------------------------------------------------------------------------------------
+def tables_module(fa):
+    """TargetTables.tla: the live template tables of the three targets as TLA+ data"""
+    tabs = wild_tables(fa)
+    parts = []
+    for tname in TARGETS:
+        t = tabs[tname]["tables"]
+        kinds = "<<%s>>" % ",\n    ".join("<<%s, %s>>" % (P.tla_value(k), P.tla_value(v)) for k, v in t["kinds"].items())
+        consts = "<<%s>>" % ",\n    ".join("<<%s, %s>>" % (P.tla_value(k), P.tla_value(v)) for k, v in t["constants"].items())
+        parts.append("%s |-> [kinds |-> %s,\n  constants |-> %s]" % (tname, kinds, consts))
+    return ("---- MODULE TargetTables ----\n(* generated from functional_algorithms/targets/{python,numpy,cpp}.py at check time *)\n"
+            "Tables == [%s]\n====\n" % ",\n ".join(parts))
+
+
+def check_tables(fa, chk):
+    wd = tlc.workdir()
+    with open(os.path.join(wd, "TargetTables.tla"), "w") as f:
+        f.write(tables_module(fa))
+    for fn in ("MC_TargetTables.tla", "MC_TargetTables.cfg"):
+        with open(os.path.join(tlc.SPEC, fn)) as f, open(os.path.join(wd, fn), "w") as g:
+            g.write(f.read())
+    r = tlc.run("MC_TargetTables", "MC_TargetTables.cfg", workers=1, cwd=wd, library=tlc.SPEC)
+    chk.add_mc("MC_TargetTables(live tables)", r)
+    if not r.finished:
+        raise tlc.MachineryError("MC_TargetTables failed:\n" + r.out[-2500:])
+    bad = tlaval.fast_tuples(r.out, "BAD")
+    rows = tlaval.fast_tuples(r.out, "ROWS")
+    info = tlaval.fast_tuples(r.out, "INFO")
+    if len(rows) != 3:
+        raise tlc.MachineryError("MC_TargetTables did not report all targets:\n" + r.out[-1500:])
+    chk.cov["table_entries_judged"] = {x[1]: dict(kinds=x[2], constants_x_types=x[3]) for x in rows}
+    chk.cov["table_entries_not_judged"] = sorted({"%s:%s:%s" % (x[1], x[2], x[3]) for x in info})
+    for b in bad:
+        _, tname, table, name = b[:4]
+        detail = " ".join(str(x) for x in b[4:])
+        chk.fail("table:%s:%s:%s" % (tname, table, name),
+                 "%s target, %s table entry %s is not what the language defines: %s" % (tname, table, name, detail),
+                 dict(table=True, target=tname, entry=name, detail=detail))
+    return len(bad)
+
+
+def check_algorithm(chk, tier):
+    cfg = "MC_Printer.cfg" if tier == "quick" else "MC_Printer_5.cfg"
+    r = tlc.run("MC_Printer", cfg, workers=NWORK)
+    chk.add_mc(cfg, r)
+    if not r.finished and not r.invariant_violated:
+        raise tlc.MachineryError("MC_Printer failed:\n" + r.out[-2500:])
+    if r.invariant_violated:
+        chk.drift_note("the transcribed printing algorithm violates the machine on a small DAG:\n" + r.error_trace()[:1500])
+    r2 = tlc.run("MC_Printer", "MC_Printer_alias.cfg", workers=2)
+    chk.add_mc("MC_Printer_alias.cfg (must be violated)", r2)
+    if "Sound" not in r2.invariant_violated:
+        raise tlc.MachineryError("vacuous model: two nodes sharing a reference name are not rejected by the machine")
+
+
+# ------------------------------------------------------------------------------------------
+# U2: TLC's generators
+# ------------------------------------------------------------------------------------------
+def gen_terms(module, cfgname, gen, chk, subst=(), seed=1):
+    with open(os.path.join(tlc.SPEC, cfgname)) as f:
+        txt = f.read()
+    txt = re.sub(r'Gen = "\w+"', 'Gen = "%s"' % gen, txt)
+    for a, b in subst:
+        txt = re.sub(a, b, txt)
+    p = os.path.join(tlc.workdir(), "%s_%s_%d.cfg" % (module, gen, seed))
+    with open(p, "w") as f:
+        f.write(txt)
+    r = tlc.run(module, p, workers=1, extra=["-seed", str(seed)], timeout=1800)
+    if not r.ok:
+        raise tlc.MachineryError("%s %s failed:\n%s" % (module, gen, r.out[-2000:]))
+    chk.add_mc("%s(%s)" % (module, gen), r)
+    return [h[1] for h in tlaval.fast_tuples(r.out, "H")]
+
+
+def generated_requests(chk, tier, seed):
+    quick = tier == "quick"
+    rng = random.Random(seed)
+    reqs = []
+
+    def add(src, terms, targets=TARGETS, variants=(0, 1), frac=1.0, debugs=None):
+        for i, t in enumerate(terms):
+            if frac < 1.0 and rng.random() > frac:
+                continue
+            for tname in targets:
+                vs = (0,) if tname == "python" else variants
+                for v in vs:
+                    dbg = debugs if debugs is not None else ((i + v) % 2 if tname == "numpy" else 0)
+                    reqs.append(dict(src=src, target=tname, term=t, variant=v, debug=dbg, simplify=(i % 3 != 0)))
+
+    kinds = gen_terms("PrinterTerms", "PrinterTerms.cfg", "kinds", chk)
+    add("PrinterTerms.kinds", kinds, variants=(0, 1) if quick else (0, 1, 2))
+    consts = gen_terms("PrinterTerms", "PrinterTerms.cfg", "consts", chk)
+    add("PrinterTerms.consts", consts)
+    dags = gen_terms("PrinterTerms", "PrinterTerms.cfg", "dags", chk)
+    add("PrinterTerms.dags", dags, variants=(0,) if quick else (0, 1), frac=0.2 if quick else 1.0)
+    rnd = gen_terms("PrinterTerms", "PrinterTerms.cfg", "random", chk, subst=[(r"NumRandom = \d+", "NumRandom = %d" % (160 if quick else 4000)),
+                                                                              (r"MaxDepth = \d+", "MaxDepth = %d" % (4 if quick else 5)),
+                                                                              (r"Seed = \d+", "Seed = %d" % (seed % 1000000))], seed=seed + 3)
+    add("PrinterTerms.random", rnd, variants=(0, 1))
+    small = gen_terms("FATerms", "FATerms.cfg", "small", chk, subst=[(r"MaxOps = \d+", "MaxOps = %d" % (1 if quick else 2))])
+    add("FATerms.small", small, variants=(0, 1), frac=1.0 if quick else 0.1)
+    # (FATerms' "random" mode draws with TLC's RandomElement, which is not reproducible: not used here)
+    ops1 = gen_terms("TypedTerms", "TypedTerms.cfg", "ops1", chk)
+    # typed terms carry their own dtypes: one variant; Python gets the unsized image of the types
+    add("TypedTerms.ops1", ops1, variants=(0,), frac=0.05 if quick else 1.0)
+    if not quick:
+        ops2 = gen_terms("TypedTerms", "TypedTerms.cfg", "ops2", chk)
+        add("TypedTerms.ops2", ops2, variants=(0,), frac=0.07)
+    return reqs
+
+
+# ------------------------------------------------------------------------------------------
+# verdict keys
+# ------------------------------------------------------------------------------------------
+def describe(req):
+    if req["src"] == "shipped":
+        return "%s(%s)" % (req["func"], ",".join(req["sig"]))
+    return "%s v%s %s" % (req["src"], req.get("variant", 0), json.dumps(req["term"], separators=(",", ":")))
+
+
+def shape_of(term, depth=0):
+    if not isinstance(term, list):
+        return str(term)
+    k = term[0]
+    if k in ("sym", "bool", "const0"):
+        return k
+    if k in ("num", "named", "const", "constT"):
+        return "%s:%s" % (k, term[1])
+    if k == "ref":
+        return "ref(%s)" % shape_of(term[3], depth)
+    if depth >= 1:
+        return k
+    return "%s(%s)" % (k, ",".join(shape_of(t, depth + 1) for t in term[1:]))
+
+
+def static_keys(r, triples):
+    """one key per (clause, what it is about): narrow classes of failing behaviour"""
+    tname = r["req"]["target"]
+    rows = r["prog"]["rows"]
+    out = {}
+    for clause, row, what in triples:
+        if clause in ("computed_type", "constant_type", "ill_formed") and " as " in str(what):
+            detail = what
+        elif clause in ("constant_value", "constant_type"):
+            o = rows[row - 1]["o"] if row else ""
+            detail = "literal" if o in ("lit", "un:-") else o
+            # which node type has no such constant: summarise by the types of constant nodes in the graph
+            detail += "@" + "+".join(sorted({n["t"] for n in r["proj"]["nodes"] if n["k"] == "constant"}))
+        elif clause == "distinct_share":
+            detail = "variable " + str(what)
+        elif clause in ("operator", "operand_order"):
+            detail = str(what)
+        elif clause in ("def_before_use", "single_assignment", "assert_target", "declared_type"):
+            detail = "param" if what in [p["name"] for p in r["prog"]["params"]] else ("result" if what == "result" else "var")
+            if clause == "def_before_use" and what in ("inf", "nan", "eps", "smallest_subnormal", "largest", "smallest", "posinf", "neginf", "pi"):
+                detail = what
+        else:
+            detail = str(what)
+        out.setdefault("%s:%s:%s" % (tname, clause, detail), []).append([clause, row, what])
+    return out
+
+
+def root_cause(key):
+    """static failure key -> tag used to attribute execution differences"""
+    t, clause, detail = key.split(":", 2)
+    if t == "cpp" and clause in ("computed_type", "constant_type", "constant_value"):
+        if detail in ("float32 as double", "literal@float32") or detail.startswith("name:M_PI@float32"):
+            return "float32 computed with double literals"
+        if re.fullmatch(r"complex\d+ as (double|float)", detail):
+            return "complex constant printed as a real literal"
+        if re.fullmatch(r"float\d+ as int", detail):
+            return "integer literals computed in int"
+    return "%s:%s" % (clause, detail)
+
+
+def program_class(r):
+    req = r["req"]
+    if req["src"] == "shipped":
+        return "shipped:%s(%s)" % (req["func"], ",".join(req["sig"]))
+    return "%s:%s" % (req["src"], shape_of(req["term"]))
+
+
+# ------------------------------------------------------------------------------------------
+# run / replay
+# ------------------------------------------------------------------------------------------
+def event_of(r, eid):
+    return dict(id=eid, target=r["req"]["target"], loads=bool(r["loads"]), parsed=not r.get("parse_failed"), nodes=r["proj"]["nodes"], root=r["proj"]["root"],
+                prog=r["prog"], wild=r["wild"], samples=r["samples"] or [])
+
+
+def judge(chk, results, nproc=None):
+    """validate all accepted programs; -> (events, tlc result)"""
+    acc = [r for r in results if r["status"] == "accepted"]
+    # identical (target, text, graph) programs are validated once
+    uniq = {}
+    for r in acc:
+        h = hashlib.sha256(json.dumps([r["req"]["target"], r["text"], r["proj"]["nodes"], r["proj"]["root"]], sort_keys=True).encode()).hexdigest()
+        r["dup_of"] = uniq.setdefault(h, r) is not r
+    todo = [r for r in acc if not r["dup_of"]]
+    # spread the big programs over the chunks
+    todo.sort(key=lambda r: -len(r["prog"]["rows"]))
+    nproc = nproc or tlc.NCPU
+    nchunks = max(1, min(nproc * 2, len(todo)))
+    order = [r for c in range(nchunks) for r in todo[c::nchunks]]
+    events = []
+    for r in order:
+        r["eid"] = len(events)
+        events.append(event_of(r, r["eid"]))
+    chunk = (len(events) + nchunks - 1) // nchunks if events else 1
+    res = tlc.validate_events("Trace_Printer", "Trace.cfg", events, name="printer", nproc=nproc, chunk=chunk, timeout=7200)
+    return order, res
+
+
+def collect(chk, order, res, path_hint=None):
+    byid = {r["eid"]: r for r in order}
+    notes = {}
+    for eid, n in res["notes"]:
+        v = tlaval.parse(n)
+        notes.setdefault(eid, {})[v[0]] = v
+    nieee = 0
+    for eid, d in notes.items():
+        if "lit_conv" in d:
+            raise tlc.MachineryError("host decimal->binary conversion of a literal disagrees with the spec in %s (rows %s)"
+                                     % (describe(byid[eid]["req"]), d["lit_conv"][1]))
+        if "samples" in d:
+            nieee += d["samples"][2]
+    chk.cov["samples_evaluated_by_the_spec"] = nieee
+    drift = 0
+    for eid, clauses in res["fails"]:
+        r = byid[eid]
+        req = r["req"]
+        tname = req["target"]
+        d = notes.get(eid, {})
+        base = dict(request=req, text=r.get("text", ""), clauses=clauses)
+        if "loads" in clauses:
+            kinds_in = {n["k"] for n in r["proj"]["nodes"]}
+            fmt_class = "formatter rejects the emitted text:" + (
+                "remainder" if "remainder" in kinds_in else "+".join(sorted(kinds_in & SPEC_WILD[tname])) or "other")
+            chk.fail("%s:loads:%s" % (tname, fmt_class if r.get("load_error", "").startswith("formatter rejects") else load_class(r)),
+                     "%s: emitted %s text does not load/compile: %s" % (describe(req), tname, r.get("load_error", "")[:200]),
+                     dict(base, error=r.get("load_error", "")))
+            continue
+        skeys = {}
+        if "static" in d:
+            triples = set_items(d["static"][1])
+            skeys = static_keys(r, triples)
+            for key, trs in skeys.items():
+                chk.fail(key, "%s: %s" % (describe(req), json.dumps(trs[:3])), dict(base, failures=trs))
+        if "samples" in d:
+            bad = [x for x in set_items(d["samples"][1]) if x[0] in ("exec_equal", "exec_ieee")]
+            for clause in sorted({x[0] for x in bad}):
+                j = min(x[1] for x in bad if x[0] == clause)
+                inp = r["inputs"][j - 1]
+                s = r["samples"][j - 1]
+                # an execution difference in a program whose text already fails a typing / constant clause is
+                # attributed to that class; otherwise to the program class
+                # an execution difference in a program whose text already fails static clauses is attributed to them
+                explained = sorted({root_cause(k) for k in skeys})
+                if s["out"]["c"] == "raise" and s["out"]["fmt"] == "AssertionError" and tname == "numpy" and not explained:
+                    explained = ["debug dtype assertion fails"]
+                key = ("%s:%s:explained_by:%s" % (tname, clause, "+".join(explained))) if explained else \
+                    "%s:%s:%s" % (tname, clause, program_class(r))
+                chk.fail(key, "%s: input %s: executed %s, direct evaluation %s" % (describe(req), [repr(x) for x in inp], show(s["out"]), show(s["ref"])),
+                         dict(base, sample=j, input=[repr(x) for x in inp], out=s["out"], ref=s["ref"]))
+    for eid, d in notes.items():
+        if "samples" in d:
+            dr = [x for x in set_items(d["samples"][1]) if x[0] == "oracle_drift"]
+            if dr:
+                drift += len(dr)
+                r = byid[eid]
+                j = dr[0][1]
+                chk.drift_note("harness interpreter and spec evaluation disagree: %s sample %d input %s ref %s"
+                               % (describe(r["req"]), j, [repr(x) for x in r["inputs"][j - 1]], show(r["samples"][j - 1]["ref"])))
+    chk.cov["oracle_drift_samples"] = drift
+    want = os.environ.get("C05_DUMP_KEY")
+    if want:   # debugging aid: show one failing program of every class whose key contains the given text
+        seen = set()
+        for key, what, rp in chk.violations:
+            if re.search(want, key) and key not in seen and rp:
+                seen.add(key)
+                print("DUMP %s\n%s\n%s\n%s" % (key, json.dumps(rp.get("request")), rp.get("text"), what[:1500]))
+
+
+def set_items(v):
+    return v["__set__"] if isinstance(v, dict) and "__set__" in v else v
+
+
+def show(v):
+    if v["c"] == "f":
+        return "%s:%r" % (v["fmt"], bits.from_bits(v["bits"], v["fmt"]))
+    if v["c"] == "z":
+        return "%s:(%r, %r)" % (v["fmt"], bits.from_bits(v["bits"], v["fmt"]), bits.from_bits(v["im"], v["fmt"]))
+    if v["c"] in ("b", "i"):
+        return "%s:%d" % (v["c"], bits.unzint(v["z"]))
+    return "%s:%s" % (v["c"], v["fmt"])
+
+
+def load_class(r):
+    """class of a load/compile error: identifiers kept, argument lists, C++ type names and numbers abstracted"""
+    e = r.get("load_error", "")
+    if "(const char*) noexcept" in e:
+        return "a NaN constant is printed as the identifier `nan` (the function std::nan)"
+    e = re.sub(r"\(.*?\)", "()", e)
+    e = re.sub(r"(std::complex<\w+>|\b(long double|double|float|int|long|bool)\b)&?", "T", e)
+    e = re.sub(r"\d+", "N", e)
+    e = re.sub(r"[‘’']", "`", e)
+    e = re.sub(r"; did you mean.*", "", e)
+    m = re.match(r"`(\w+)` was not declared in this scope", e)
+    if m and m.group(1) not in ("True", "False", "eps", "smallest_subnormal", "nan", "inf", "pi", "largest", "smallest"):
+        e = "`<name>` was not declared in this scope"
+    return e[:90].strip()
+
+
+ROUND = 9000     # requests per round (bounds memory: a round's programs are judged and dropped)
+
+
+def trim_ieee(results, nieee, only_cpp=False):
+    """the spec evaluates fewer samples of big graphs"""
+    for r in results:
+        if r["status"] == "accepted" and r.get("samples") and (not only_cpp or r["req"]["target"] == "cpp"):
+            budget = max(2, min(nieee, 600 // max(1, len(r["proj"]["nodes"]))))
+            for i, s in enumerate(r["samples"]):
+                if i >= budget:
+                    s["ieee"] = False
+                    s["in"] = {}
+
+
+def run(tier, seed):
+    fa = import_repo()
+    chk = Check(PID, tier, seed, level="translation_validation")
+    quick = tier == "quick"
+    t0 = time.time()
+
+    def phase(name):
+        print("phase %-40s %6.1fs" % (name, time.time() - t0))
+        sys.stdout.flush()
+    # U1
+    check_algorithm(chk, tier)
+    check_tables(fa, chk)
+    phase("U1 model checks")
+    # U2
+    reqs = [dict(r, debug=d) for r in shipped_requests(fa) for d in (0, 1)]
+    reqs += generated_requests(chk, tier, seed)
+    phase("TLC generators (%d requests)" % len(reqs))
+    nsamples, nieee = (40, 8) if quick else (100, 12)
+    stat, declined = {}, {}
+    covk = {t: set() for t in TARGETS}
+    covt = {t: set() for t in TARGETS}
+    covc = {t: set() for t in TARGETS}
+    tot = dict(programs=0, validated=0, execs=0, noref=0, ieee=0, drift=0, events=0)
+    texts = set()
+    always_raise = []
+    tr = dict(fails=[], notes=[], states=0, transitions=0, chunks=0, wall=0.0)
+    sample_prog = None
+    rounds = [reqs[i:i + ROUND] for i in range(0, len(reqs), ROUND)]
+    for ri, rreqs in enumerate(rounds):
+        results = produce_all(fa, rreqs, nsamples, nieee, seed)
+        trim_ieee(results, nieee)
+        run_cpp_programs(fa, results, nieee)
+        trim_ieee(results, nieee, only_cpp=True)
+        for r in results:
+            stat.setdefault(r["req"]["src"], {}).setdefault(r["req"]["target"], {}).setdefault(r["status"], 0)
+            stat[r["req"]["src"]][r["req"]["target"]][r["status"]] += 1
+            if r["status"] == "declined":
+                k = "%s:%s" % (r["req"]["target"], r["why"].split(":")[0])
+                declined[k] = declined.get(k, 0) + 1
+        perr = [r for r in results if r["status"] == "parse_error"]
+        if perr:
+            raise tlc.MachineryError("the independent parser cannot parse an emitted text (%d programs), e.g. %s: %s"
+                                     % (len(perr), describe(perr[0]["req"]), perr[0]["why"]))
+        for r in results:
+            if r.get("param_mismatch"):
+                chk.fail("%s:parameters" % r["req"]["target"], "%s: parameter list of the text differs from the graph's arguments" % describe(r["req"]),
+                         dict(request=r["req"], text=r["text"]))
+        order, res = judge(chk, results)
+        acc = [r for r in results if r["status"] == "accepted"]
+        for k in ("states", "transitions", "chunks", "wall"):
+            tr[k] += res[k]
+        tr["fails"] += res["fails"]
+        collect(chk, order, res)
+        tot["ieee"] += chk.cov.get("samples_evaluated_by_the_spec", 0)
+        tot["drift"] += chk.cov.get("oracle_drift_samples", 0)
+        tot["programs"] += len(acc)
+        tot["validated"] += len(order)
+        tot["execs"] += sum(len(r["samples"] or []) for r in acc)
+        tot["noref"] += sum(1 for r in acc if r.get("samples") and all(s["ref"]["c"] == "skip" for s in r["samples"]))
+        for r in acc:
+            t = r["req"]["target"]
+            if sum(1 for s in r["prog"]["stmts"] if s["op"] == "assign") >= 1 or len(r["proj"]["nodes"]) >= 4:
+                texts.add(hashlib.sha256((t + r["text"]).encode()).digest()[:12])
+            for n in r["proj"]["nodes"]:
+                covk[t].add(n["k"])
+                covt[t].add(n["t"])
+                if n["v"]["c"] == "named":
+                    covc[t].add(n["v"]["name"])
+            if r.get("samples") and all(s["out"]["c"] == "raise" and s["ref"]["c"] == "raise" for s in r["samples"]):
+                always_raise.append(describe(r["req"]))
+        if sample_prog is None and order:
+            mid = order[len(order) // 2]
+            sample_prog = dict(request=mid["req"], text=mid["text"], nodes=len(mid["proj"]["nodes"]), first_sample=(mid["samples"] or [None])[0])
+        phase("round %d/%d: %d requests, %d programs judged" % (ri + 1, len(rounds), len(rreqs), len(order)))
+        del results, order, res, acc
+    chk.add_trace("Trace_Printer", tr, tot["programs"], ntraces=tot["validated"])
+    chk.cov["requests"] = stat
+    chk.cov["declined_by_exception_class"] = declined
+    chk.cov["samples_evaluated_by_the_spec"] = tot["ieee"]
+    chk.cov["oracle_drift_samples"] = tot["drift"]
+    chk.cov["kinds_printed"] = {t: sorted(covk[t]) for t in TARGETS}
+    chk.cov["dtypes_printed"] = {t: sorted(covt[t]) for t in TARGETS}
+    chk.cov["named_constants_printed"] = {t: sorted(covc[t]) for t in TARGETS}
+    chk.cov["kinds_declared_not_printed"] = {
+        t: sorted(k for k, v in wild_tables(fa)[t]["tables"]["kinds"].items() if v["o"] != "none" and k not in covk[t]) for t in TARGETS}
+    chk.cov["wild_carded_kinds"] = {t: sorted(SPEC_WILD[t]) for t in TARGETS}
+    classes = {}
+    for key, what, rp in chk.violations:
+        classes[key] = classes.get(key, 0) + 1
+    for key, v in chk.known_hit.items():
+        classes[key] = v[1]
+    chk.cov["failure_classes"] = dict(sorted(classes.items()))
+    chk.cov["executions_compared"] = tot["execs"]
+    chk.cov["programs_without_reference"] = tot["noref"]
+    if always_raise:
+        chk.note("%d programs raise on every input in the emitted code and in the direct evaluation alike (not judged), e.g. %s"
+                 % (len(always_raise), sorted(always_raise)[0][:200]))
+    if sample_prog:
+        chk.sample(sample_prog)
+    chk.assumptions += [
+        "trusted base for clause exec_equal: the harness's direct evaluation of the node table (Python/NumPy interpreter over the harness's own primitive table; "
+        "for C++ a reference rendering, one typed statement per node, compiled with the same g++ flags in the same translation unit)",
+        "clause exec_ieee (graphs over +,-,*,/,sqrt,abs,neg,min,max,comparisons,select,logical ops,casts,square,is_finite,complex parts; uniform precision) is decided "
+        "by FAPrinterEval.tla on the first samples of every program; disagreement between it and the harness interpreter is reported as drift",
+        "decimal literals are converted by Python's float() (= correctly rounded strtod) in the parser and re-verified by DecIsRN in the spec",
+        "node static types are taken from Expr.get_type() (their correctness is C08's subject)",
+        "g++ -std=c++17 -O0 -fno-fast-math -ffp-contract=off -frounding-math (no compile-time folding of libm calls) on x86-64 SSE2; exec() for Python/NumPy with the target's source_file_header",
+        "leniencies: NaN = NaN; samples whose strict direct evaluation raises are not judged; `p = T(p)` / `T(p)` with T the declared type of parameter p is the argument; constants of equal value "
+        "and type are one sub-expression; complex literals are not interpreted by the spec (they may denote any complex constant; covered by execution); 0-d arrays and scalars of the same "
+        "dtype and bits are the same result; wild-carded kinds are matched against the package's own template; a term above an undefined name is not judged again",
+        "a graph is 'accepted' by a target when rewrite(target) and tostring(target) return without raising (a formatter exception on the emitted text counts as text that does not load); "
+        "list-valued programs, alt-context constants and long double are not covered",
+    ]
+    return chk.finish(rule="programs = every shipped (function, signature) of trace_arguments accepted by the target x debug 0/1, plus TLC-generated terms "
+                           "(PrinterTerms kinds/consts/dags/random, FATerms small, TypedTerms ops1/ops2) x target x dtype variant; each executed on "
+                           "%d inputs; non-trivial = distinct emitted texts with at least one assignment or >= 4 graph nodes" % nsamples,
+                      distinct_nontrivial=len(texts),
+                      extra_cov=dict(programs=tot["programs"], distinct_programs_validated=tot["validated"]))
+
+
+def replay(path):
+    fa = import_repo()
+    with open(path) as f:
+        rp = json.load(f)["replay"]
+    chk = Check(PID, "quick", 0, level="translation_validation")
+    if rp.get("table"):
+        n = check_tables(fa, chk)
+        for v in chk.violations:
+            print("VIOLATION property=%s replay=%s  # %s" % (PID, path, v[1]))
+        return 1 if n else 0
+    req = rp["request"]
+    results = produce_all(fa, [req], 40, 8, 0)
+    run_cpp_programs(fa, results, 8)
+    r = results[0]
+    print("status:", r["status"], r.get("why", ""))
+    if r["status"] != "accepted":
+        return 0
+    print(r["text"])
+    order, res = judge(chk, results, nproc=1)
+    for eid, n in res["notes"]:
+        print("NOTE", n[:2000])
+    for eid, clauses in res["fails"]:
+        print("VIOLATION property=%s replay=%s  # clauses %s" % (PID, path, clauses))
+    return 1 if res["fails"] else 0
